@@ -10,6 +10,8 @@ import vlib
 KEYWORDS = None
 PRIOR = ("colvar {\n  name y\n  distanceZ {\n    main { atomNumbers 3 }\n    ref { dummyAtom (0, 0, 0) }\n  }\n}\n"
          "harmonic {\n  name hy\n  colvars y\n  centers 1.5\n  forceConstant 3.0\n}\n")
+# a configuration that is rejected by typed-value errors in module-level keywords (reported through the error bits only)
+PRIOR_BAD = "colvarsRestartFrequency 1234567x\n"
 POS = [[0.5, 0.25, 0.125], [0.75, -0.5, 1.625], [1.0, 2.0, -0.375], [0, 0, 0]]
 
 
@@ -66,7 +68,9 @@ def render(toks, lay):
 
 def case_cmds(text, prior):
     cmds = [{"op": "new", "natoms": 4}]
-    if prior:
+    if prior == "bad":
+        cmds.append({"op": "config", "text": PRIOR_BAD})
+    elif prior:
         cmds.append({"op": "config", "text": PRIOR})
     cmds.append({"op": "config", "text": text})
     cmds.append({"op": "step", "pos": POS})
@@ -95,7 +99,7 @@ def replay_chunk(args):
             text = render(c["toks"], c["lay"])
             res = {}
             bad = None
-            for prior in (False, True):
+            for prior in (False, True, "bad"):
                 if d is None or d.dead:
                     if d:
                         d.close()
@@ -109,8 +113,16 @@ def replay_chunk(args):
             if bad:
                 out.append((bad[0], dict(bad[1], text=text), c))
                 continue
-            o0, o1 = res[False], res[True]
+            o0, o1, o2 = res[False], res[True], res["bad"]
             acc0, acc1 = o0["rc"] == 0, o1["rc"] == 0
+            # the verdict must not depend on an earlier REJECTED configuration either
+            if c["v"] in ("R", "OK") and (o2["rc"] == 0) != acc0:
+                out.append(("history", {"what": "%s when fresh but %s after an earlier rejected configuration%s" % (
+                    "accepted" if acc0 else "rejected", "accepted" if o2["rc"] == 0 else "rejected", ("" if o2["rc"] == 0 else ": " + o2["errtext"][:120])), "text": text}, c))
+                continue
+            if c["v"] == "OK" and acc0 and (o2["ncv"], o2["nb"], json.dumps(o2.get("steps"), sort_keys=True)) != (o0["ncv"], o0["nb"], json.dumps(o0.get("steps"), sort_keys=True)):
+                out.append(("history", {"what": "defines a different model after an earlier rejected configuration", "text": text}, c))
+                continue
             v = c["v"]
             if v == "R" and (acc0 or acc1):
                 out.append(("accepted", {"what": "accepted (%s) although the specification requires rejection" % ("fresh" if acc0 else "after an earlier configuration only"),
